@@ -124,6 +124,25 @@ def run_replay(path, timeout=120):
     return {"reproduced": False, "why": "no result: " + (r.stdout + r.stderr)[-800:]}
 
 
+def expand_splits(tasks):
+    """a task with "split": d is partitioned into 2^d shards of its decision tree"""
+    import itertools
+    out = []
+    for t in tasks:
+        d = t.get("split", 0)
+        if not d or t.get("canary"):
+            out.append(t)
+            continue
+        for bits in itertools.product((1, 0), repeat=d):
+            s = dict(t)
+            s["shard"] = list(bits)
+            s["name"] = f"{t.get('name', t.get('harness'))} shard={''.join(map(str, bits))}"
+            s["weight"] = t.get("weight", 1) / (2 ** d) * 2
+            s["no_assert_ok"] = True
+            out.append(s)
+    return out
+
+
 def main(argv=None):
     _bootstrap()
     argv = list(sys.argv[1:] if argv is None else argv)
@@ -142,6 +161,7 @@ def main(argv=None):
     tasks = mod.tasks(tier, seed)
     if only:
         tasks = [t for t in tasks if only in json.dumps(t, default=str)]
+    tasks = expand_splits(tasks)
     for i, t in enumerate(tasks):
         t["index"] = i
     nproc = int(os.environ.get("SX_PROCS", "16"))
